@@ -170,6 +170,11 @@ def shift_cases(draw):
     }
 
 
+PROP_REQ0 = [0, 1, 2, 3]  # pool indices of the first request: a, b, a+b, -a
+PROP_INVERSE = [(0, 3), (1, 4), (2, 5)]  # pool index pairs (z, -z)
+PROP_SUM = [(0, 1, 2), (3, 4, 5)]  # pool index triples (x, y, x+y)
+
+
 @st.composite
 def prop_cases(draw):
     tilt = draw(
@@ -180,8 +185,29 @@ def prop_cases(draw):
         )
     )
     dz = st.one_of(_fl(-40, 40), st.sampled_from([1.0, 5.0, 10.0, 20.0, 0.0]))
+    # history on ONE probe-model instance: request 0 is the stack [a, b, a+b, -a]; every later request
+    # names distances from the pool [a, b, a+b, -a, -b, -(a+b)] and may first change the tilt / energy
+    # through the public setters or ask with another sampling; half of the requests repeat the previous
+    # request's distances exactly
+    tilt_st = st.one_of(st.tuples(_fl(-30, 30), _fl(-30, 30)).map(list), st.just([0.0, 0.0]))
+    history = []
+    prev = list(PROP_REQ0)
+    for _ in range(draw(st.integers(1, 3))):
+        req = prev if draw(st.booleans()) else draw(st.lists(st.integers(0, 5), min_size=1, max_size=3))
+        change = draw(st.sampled_from(["tilt", "tilt", "none", "energy", "sampling", "tilt+energy"]))
+        step = {"req": list(req), "tilt": None, "energy": None, "sampling": None}
+        if "tilt" in change:
+            step["tilt"] = draw(tilt_st)
+        if "energy" in change:
+            step["energy"] = draw(st.sampled_from([20e3, 60e3, 80e3, 200e3, 300e3, 1e6]))
+        if change == "sampling":
+            step["sampling"] = [draw(_fl(0.1, 1.0)), draw(_fl(0.1, 1.0))]
+        history.append(step)
+        prev = list(req)
     return {
         "kind": "prop",
+        "history": history,
+        "learn_tilt": draw(st.sampled_from([False, False, False, True])),
         "R": draw(_side()),
         "C": draw(_side()),
         "sampling": [draw(_fl(0.1, 1.0)), draw(_fl(0.1, 1.0))],
@@ -250,6 +276,9 @@ def chain_cases(draw):
             "ortho": draw(st.booleans()),
             "hi": draw(st.booleans()),  # float64/complex128 configuration
             "subset": draw(st.booleans()),
+            # multislice only: change the probe tilt through the public setter after the first pass,
+            # recompute the propagators and run the chain again on the same instance
+            "retilt": draw(st.none() | st.tuples(_fl(-20, 20), _fl(-20, 20)).map(list)) if S >= 2 else None,
             "seed": draw(SEEDS),
         }
     )
@@ -395,6 +424,16 @@ def _check_shift(ctx, case):
 # ------------------------------------------------------------------------------------------------
 # propagators
 # ------------------------------------------------------------------------------------------------
+def _phase_per_A(E, samp, tilt):
+    """Largest phase (rad) per Angstrom of distance any propagator element can carry (float64, harness
+    side): the library evaluates the phase in float32, so its error is proportional to this."""
+    lam = ref.wavelength_angstrom(float(E))
+    kmax = 0.5 / np.asarray(samp, dtype=np.float64)
+    return math.pi * lam * float(np.sum(kmax**2)) + 2 * math.pi * float(
+        abs(math.tan(tilt[0] / 1e3)) * kmax[0] + abs(math.tan(tilt[1] / 1e3)) * kmax[1]
+    )
+
+
 def _check_prop(ctx, case):
     Q = q()
     torch = Q.torch
@@ -403,15 +442,12 @@ def _check_prop(ctx, case):
     tilt = [float(t) for t in case["tilt"]]
     za, zb = (float(z) for z in case["dz"])
     E = float(case["energy"])
-    dz = np.array([za, zb, za + zb, -za], dtype=np.float64)
+    pool = np.array([za, zb, za + zb, -za, -zb, -(za + zb)], dtype=np.float64)
+    dz = pool[PROP_REQ0]
+    history = case.get("history") or []
+    learn = bool(case.get("learn_tilt", False))
 
-    # largest phase any propagator element can carry (float64, harness side): the library evaluates
-    # the phase in float32, so its error is proportional to this
-    lam = ref.wavelength_angstrom(E)
-    kmax = 0.5 / samp
-    per_A = math.pi * lam * float(np.sum(kmax**2)) + 2 * math.pi * float(
-        abs(math.tan(tilt[0] / 1e3)) * kmax[0] + abs(math.tan(tilt[1] / 1e3)) * kmax[1]
-    )
+    per_A = _phase_per_A(E, samp, tilt)
     phi = np.abs(dz) * per_A
     nontrivial = bool(phi[0] > 1e-2 or phi[1] > 1e-2)
     classes = ["prop", "prop:" + case["dtype"], "prop:tilted" if any(tilt) else "prop:untilted"]
@@ -419,12 +455,25 @@ def _check_prop(ctx, case):
         classes.append("prop:nonsquare")
     if za < 0 or zb < 0:
         classes.append("prop:negative_distance")
+    if learn:
+        classes.append("prop:learn_probe_tilt")
+    prev_req = list(PROP_REQ0)
+    for st_ in history:
+        changed = [k for k in ("tilt", "energy", "sampling") if st_.get(k) is not None]
+        for k in changed:
+            classes.append("prop:history_%s_change" % k)
+        if list(st_["req"]) == prev_req:
+            classes.append("prop:history_identical_repeat" + ("_after_change" if changed else ""))
+        prev_req = list(st_["req"])
+    classes.append("prop:history_len_%d" % (1 + len(history)))
     ctx.record(case, nontrivial, classes)
 
     probe = _cplx(case["seed"], (M, R, C), 1.0, "complex64")
     x = _cplx(case["seed"] + 1, (M, 2, R, C), 1.0, case["dtype"])
     with ctx.sut(case, "_compute_propagator_arrays"):
-        pm = Q.ProbePixelated.from_array(probe_array=probe, probe_params={"energy": E}, probe_tilt=tuple(tilt))
+        pm = Q.ProbePixelated.from_array(
+            probe_array=probe, probe_params={"energy": E}, probe_tilt=tuple(tilt), learn_probe_tilt=learn
+        )
         P = pm._compute_propagator_arrays(samp, len(dz) + 1, dz)
     Pn = _np(P)
     if tuple(Pn.shape) != (len(dz), R, C):
@@ -462,6 +511,71 @@ def _check_prop(ctx, case):
             np.abs(yab_n - y2_n),
             (4e-6 * (1 + phi[0] + phi[1] + phi[2]) + extra) * l2,
             "%s: propagate by a then b == propagate by a+b" % name,
+        )
+
+    # ---- history on the same instance: the identities must also hold between propagators obtained
+    # in DIFFERENT requests made under the same current (tilt, energy, sampling), and every stack must
+    # be what a fresh instance with the current parameters returns
+    cur = {"tilt": list(tilt), "energy": E, "sampling": [float(v) for v in samp]}
+    seen = {}
+
+    def skey():
+        return (tuple(cur["tilt"]), cur["energy"], tuple(cur["sampling"]))
+
+    seen[skey()] = {i: Pn[k] for k, i in enumerate(PROP_REQ0)}
+    for n, step in enumerate(history, start=1):
+        req = [int(i) for i in step["req"]]
+        zs = pool[req]
+        with ctx.sut(case, "history request %d (public setters + _compute_propagator_arrays)" % n):
+            if step.get("tilt") is not None:
+                cur["tilt"] = [float(t) for t in step["tilt"]]
+                pm.probe_tilt = tuple(cur["tilt"])
+            if step.get("energy") is not None:
+                cur["energy"] = float(step["energy"])
+                pm.probe_params = {"energy": cur["energy"]}
+            if step.get("sampling") is not None:
+                cur["sampling"] = [float(v) for v in step["sampling"]]
+            Ph = pm._compute_propagator_arrays(np.array(cur["sampling"]), len(zs) + 1, zs)
+            fresh = Q.ProbePixelated.from_array(
+                probe_array=probe, probe_params={"energy": cur["energy"]}, probe_tilt=tuple(cur["tilt"]), learn_probe_tilt=learn
+            )._compute_propagator_arrays(np.array(cur["sampling"]), len(zs) + 1, zs)
+        Ph_n = _np(Ph)
+        if tuple(Ph_n.shape) != (len(zs), R, C):
+            _fail(case, "request %d: propagator stack has shape %s, expected %s" % (n, tuple(Ph_n.shape), (len(zs), R, C)))
+        Ph_n = Ph_n.astype(np.complex128)
+        pa = _phase_per_A(cur["energy"], cur["sampling"], cur["tilt"])
+        ph = lambda i: abs(pool[i]) * pa  # noqa: E731
+        _judge(case, "prop", np.abs(np.abs(Ph_n) - 1.0), 5e-6, "request %d: |propagator| == 1" % n)
+        bucket = seen.setdefault(skey(), {})
+        new = {}
+        for k, i in enumerate(req):
+            new[i] = Ph_n[k]
+        both = dict(bucket)
+        both.update(new)
+        for i, Pi in new.items():
+            if i in bucket:
+                _judge(
+                    case, "prop", np.abs(Pi - bucket[i]), 4e-6 * (1 + 2 * ph(i)),
+                    "request %d: P(z) equals P(z) of an earlier request with the same tilt/energy/sampling" % n,
+                )
+        for i, j in PROP_INVERSE:
+            if i in both and j in both and (i in new or j in new):
+                _judge(
+                    case, "prop", np.abs(both[i] * both[j] - 1.0), 4e-6 * (1 + 2 * ph(i)),
+                    "request %d: P(-z) P(z) == 1 across requests with the same tilt/energy/sampling" % n,
+                )
+        for i, j, k in PROP_SUM:
+            if i in both and j in both and k in both and (i in new or j in new or k in new):
+                _judge(
+                    case, "prop", np.abs(both[i] * both[j] - both[k]), 4e-6 * (1 + ph(i) + ph(j) + ph(k)),
+                    "request %d: P(a) P(b) == P(a+b) across requests with the same tilt/energy/sampling" % n,
+                )
+        bucket.update(new)
+        fr_n = _np(fresh).astype(np.complex128)
+        tol = 4e-6 * (1 + 2 * np.abs(zs) * pa)[:, None, None]
+        _judge(
+            case, "prop", np.abs(Ph_n - fr_n), tol * np.ones(Ph_n.shape),
+            "request %d: propagators equal those of a fresh probe model with the current tilt/energy" % n,
         )
 
 
@@ -723,6 +837,39 @@ def _check_chain(ctx, case):
         else:
             o_list, gathers = [], []
         _judge_adjoint(ctx, case, "chain", idx, y, _np(out), (Ro, Co), o_list, gathers, not case["hi"])
+
+        # history: change the tilt on the SAME instance (public setter), recompute the propagators the
+        # way reconstruct() does, and run the chain again; the propagators must be those of a freshly
+        # built problem with the new tilt
+        retilt = case.get("retilt")
+        if retilt is not None and S >= 2:
+            ctx.count("chain:retilt_history")
+            with ctx.sut(case, "probe_tilt setter + compute_propagator_arrays + forward chain"):
+                with torch.no_grad():
+                    pt.probe_model.probe_tilt = tuple(float(t) for t in retilt)
+                    pt.compute_propagator_arrays()
+                    shifted = pt.probe_model.forward(frac)
+                    _prop, overlap = pt.forward_operator(patches, shifted, descan)
+                    inten2 = pt.detector_model.forward(overlap)
+                    P_hist = pt.propagators
+            _judge(
+                case, "chain", np.abs(_np(inten2).astype(np.float64).sum(axis=(-2, -1)) - p0), rel * p0,
+                "after a tilt change: sum of predicted intensity of a pattern == total probe intensity",
+            )
+            with ctx.sut(case, "building a fresh problem with the new tilt"):
+                pt2 = _build(case, S, case["thick"], retilt, M, case["obj_type"], seed, random_object=False)
+                P_fresh = pt2.propagators
+                thick = np.asarray(pt2.slice_thicknesses, dtype=np.float64).ravel()
+            Ph, Pf = _np(P_hist).astype(np.complex128), _np(P_fresh).astype(np.complex128)
+            if Ph.shape != Pf.shape:
+                _fail(case, "after a tilt change the propagator stack has shape %s, a fresh problem gives %s" % (Ph.shape, Pf.shape))
+            pa = _phase_per_A(case["energy"], np.asarray(pt2.sampling, dtype=np.float64), retilt)
+            tol = 4e-6 * (1 + 2 * np.abs(thick) * pa)[:, None, None]
+            _judge(case, "chain", np.abs(np.abs(Ph) - 1.0), 5e-6, "after a tilt change: |propagator| == 1")
+            _judge(
+                case, "chain", np.abs(Ph * np.conj(Pf) - 1.0), tol * np.ones(Ph.shape),
+                "after a tilt change: propagators of the instance times the inverse propagators of a fresh problem with the current tilt == 1",
+            )
 
 
 # ------------------------------------------------------------------------------------------------
